@@ -283,7 +283,7 @@ Proof.
   intros Hac Hfix E. destruct (sweep_static sl sl' d E) as [Hl Hn].
   split; [exact Hl|]. split; [apply acyc_above_S; apply (acyc_above_nxt rk k sl); assumption|].
   rewrite sweep_rew_fold in E.
-  destruct (fold_rank rk k (seq 0 (length sl)) sl _ sl' d (fun s => (s < length sl)%nat /\ (rk s < k)%nat) Hac)
+  destruct (fold_rank rk k (seq 0 (length sl)) sl (zero qops) sl' d (fun s => (s < length sl)%nat /\ (rk s < k)%nat) Hac)
     as [I1 I2]; try exact E.
   - intros i Hi. apply in_seq in Hi. lia.
   - intros s Hs Hk. split; assumption.
@@ -353,7 +353,3 @@ Proof.
   - lia.
   - exists sl', j. split; [exact E|lia].
 Qed.
-
-(* the result holds a fixed point: every state is fixed in the returned list when the loop used
-   its full R + 1 sweeps ... not needed for termination; what is returned in general satisfies the
-   residual bound of RewResQ.vi_rew_residual *)
